@@ -108,6 +108,9 @@ def action_rec(a, out_tag, guard_names=None) -> Rec:
         return Rec(kind="other", name=a.type, arg=[])
     if canon is not None:
         return Rec(kind="other", name=a.type, arg=[])
+    if a.type.startswith("slow:"):
+        # harness convention: a coroutine action that sleeps <ms> virtual milliseconds
+        return Rec(kind="slow", name=a.type, arg=[int(a.type.split(":")[1])])
     return Rec(kind="user", name=a.type, arg=[])
 
 
@@ -129,6 +132,17 @@ def _act_info(nodes, trans, extra) -> dict:
     for k, v in (extra or {}).items():
         info[k] = Rec(sec=v["sec"], owner=v["owner"])
     return info
+
+
+def _delays(machine, nodes, scratch) -> dict:
+    """after-event type -> delay in ms, resolved the way _schedule_state_tasks resolves it"""
+    out = {}
+    for n in nodes:
+        for delay_key, tl in n.after.items():
+            ms = scratch._resolve_delay(delay_key, None)
+            for t in tl:
+                out[t.event] = int(ms) if ms is not None else -1
+    return out
 
 
 def fuel_of(machine) -> int:
@@ -276,6 +290,7 @@ def export_machine(machine: MachineNode, ctl: Ctl, *, events: Optional[List[str]
         actionImpl=user_actions,
         actInfo=_act_info(nodes, trans, act_info),
         ctx0=ctx0,
+        delayMs=_delays(machine, nodes, scratch),
         maxIter=int(getattr(machine, "max_iterations", 1000)),
         fuel=fuel_of(machine),
     )
